@@ -80,32 +80,51 @@ def r_zipguard_tuple(ck: Checker) -> None:
             raise Unsupported("is_instance uses zip(strict=True); a length mismatch raises instead of returning False", strict[0])
         raise Unsupported("no zip in is_instance (fixed tuples are checked differently)", f.node)
     dom = lambda k: (0, 1, 2, 3) if k.startswith("len(") else (True, False)  # noqa: E731
-    leaves = decision_tree(strip_docstring(f.node.body), domain=dom, max_atoms=30, try_as_body=True)
-    for z in zips:
-        a_names = [norm(a) for a in z.args]
-        reach = [lf for lf in leaves if lf.value is not None and any(n is z for n in ast.walk(lf.value))]
-        if not reach:
-            raise Unsupported("zip call not on a return path", z)
-        bad = []
-        for lf in reach:
+    vp, tp = f.node.args.args[0].arg, f.node.args.args[1].arg
+    leaves = decision_tree(strip_docstring(f.node.body), domain=dom, max_atoms=30, try_as_body=True, resolve=True)
+    n_reach = 0
+    bad = []
+    for lf in leaves:
+        if lf.value is None:
+            continue
+        for z in [c for c in ast.walk(lf.value) if isinstance(c, ast.Call) and dotted(c.func) == "zip"
+                  and not any(k.arg == "strict" and is_const(k.value, True) for k in c.keywords)]:
+            n_reach += 1
+            a_names = [norm(a) for a in z.args]
             lens = [lf.assign.get(f"len({n})") for n in a_names]
             if None in lens:
-                bad.append({"path": {k: v for k, v in lf.assign.items() if k.startswith("len(")}, "problem": "length of an operand not compared"})
+                bad.append({"zip": a_names, "path": {k: v for k, v in lf.assign.items() if k.startswith("len(")}, "problem": "length of an operand not compared"})
             elif len(set(lens)) != 1:
-                bad.append({"lens": dict(zip(a_names, lens))})
-        if bad:
-            ck.violation("R-ZIPGUARD", f, z, what, evaluations=len(reach),
-                         construct=f"is_instance: zip({', '.join(a_names)}) reached with unequal / unchecked lengths", rows=bad[:3])
-        else:
-            ck.holds("R-ZIPGUARD", f, z, what, evaluations=len(reach), paths=len(reach))
+                bad.append({"zip": a_names, "lens": dict(zip(a_names, lens))})
+    if not n_reach:
+        raise Unsupported("zip call not on a return path", zips[0])
+    if bad:
+        ck.violation("R-ZIPGUARD", f, zips[0], what, evaluations=n_reach,
+                     construct=f"is_instance: zip({', '.join(bad[0]['zip'])}) reached with unequal / unchecked lengths", rows=bad[:3])
+    else:
+        ck.holds("R-ZIPGUARD", f, zips[0], what, evaluations=n_reach, paths=n_reach)
     # variadic and empty tuple arms
     what = "is_instance: tuple[()] accepts only the empty tuple; tuple[X, ...] checks every element"
-    ok_empty = any(lf.assign.get("len(args)") == 0 and lf.val() == "len(value) == 0" for lf in leaves)
-    ok_var = any(lf.val() == "all((is_instance(item, args[0]) for item in value))" and lf.assign.get("len(args)") == 2 for lf in leaves)
+    from ..astutil import alpha
+    k_args = f"len(get_args({tp}))"
+    tup = [lf for lf in leaves if lf.assign.get(f"is_tuple({tp})") is True]
+    if not tup or not any(k_args in lf.assign for lf in tup):
+        raise Unsupported("is_instance: the tuple arm (is_tuple(type_) with get_args(type_)) was not found", f.node)
+    empty = [lf for lf in tup if lf.assign.get(k_args) == 0]
+    ok_empty = bool(empty) and all(lf.outcome == "return" and lf.val() in (f"len({vp}) == 0", f"not {vp}", f"{vp} == ()", f"not len({vp})", f"0 == len({vp})") for lf in empty)
+    k_ell = next((k for lf in tup for k in lf.assign if k.startswith("is(") and "Ellipsis" in k or k.startswith("is(") and "..." in k), None)
+    var = [lf for lf in tup if lf.assign.get(k_args) == 2 and k_ell is not None and lf.assign.get(k_ell) is True]
+    want_var = (f"all((is_instance(_b0, get_args({tp})[0]) for _b0 in {vp}))",)
+    ok_var = bool(var) and all(lf.outcome == "return" and lf.value is not None and alpha(lf.value) in want_var for lf in var)
     if ok_empty and ok_var:
-        ck.holds("R-ZIPGUARD", f, f.node, what)
+        ck.holds("R-ZIPGUARD", f, f.node, what, evaluations=len(empty) + len(var))
+    elif (empty and not ok_empty and all(lf.val() in ("True", "False") for lf in empty)) or \
+            (var and not ok_var and all(not any(isinstance(st, (ast.For, ast.While)) for st in lf.stmts) and
+                                        ("is_instance(" not in (lf.val() or "") or " for " not in (lf.val() or "")) for lf in var)):
+        # the empty tuple arm ignores the value / the variadic arm does not look at every element
+        ck.violation("R-ZIPGUARD", f, f.node, what, construct=f"is_instance tuple arms: empty ok={ok_empty} ({[lf.val() for lf in empty][:2]}) variadic ok={ok_var} ({[lf.val() for lf in var][:1]})")
     else:
-        ck.violation("R-ZIPGUARD", f, f.node, what, construct=f"is_instance tuple arms: empty ok={ok_empty} variadic ok={ok_var}")
+        raise Unsupported(f"is_instance tuple arms not recognised: empty {[lf.val() for lf in empty][:2]}, variadic {[lf.val() for lf in var][:1]}", f.node)
 
 
 def r_gate(ck: Checker) -> None:
@@ -167,31 +186,48 @@ def r_gate(ck: Checker) -> None:
     # field map: all fields minus id/content_id, irrespective of init
     what = "every field except id and content_id is checked, init or not"
     ok = False
-    if callc and len(callc[0].args) == 2 and norm(callc[0].args[0]) == "self" and isinstance(callc[0].args[1], ast.DictComp):
-        dc = callc[0].args[1]
+    from ..loops import lower_collect, module_constant
+    fmap = callc[0].args[1] if callc and len(callc[0].args) == 2 else None
+    if isinstance(fmap, ast.Name):  # a local bound once inside the gated block
+        binds = [st for st in walk_body(g.body) if isinstance(st, (ast.Assign, ast.AnnAssign)) and norm(st.targets[0] if isinstance(st, ast.Assign) else st.target) == fmap.id]
+        if len(binds) == 1 and binds[0].value is not None:
+            fmap = binds[0].value
+    if callc and fmap is not None and not isinstance(fmap, ast.DictComp):
+        raise Unsupported(f"__post_init__: checked field map {norm(fmap)[:60]} is not a comprehension over the class's fields", g)
+    if callc and len(callc[0].args) == 2 and norm(callc[0].args[0]) == "self" and isinstance(fmap, ast.DictComp):
+        dc = fmap
         gen = dc.generators[0]
         if len(dc.generators) == 1 and norm(gen.iter) in ("get_cls_all_fields(self.__class__).items()", "get_cls_all_fields(type(self)).items()") \
                 and isinstance(gen.target, ast.Tuple) and len(gen.target.elts) == 2 and norm(dc.key) == norm(gen.target.elts[0]) \
                 and norm(dc.value) == norm(gen.target.elts[1]):
             fv = norm(gen.target.elts[0])
-            if len(gen.ifs) == 1 and norm(gen.ifs[0]) in (f"{fv}.name not in ('id', 'content_id')", f"{fv}.name not in ('content_id', 'id')",
-                                                           f"{fv}.name not in {{'id', 'content_id'}}"):
-                ok = True
+            if len(gen.ifs) == 1 and isinstance(gen.ifs[0], ast.Compare) and len(gen.ifs[0].ops) == 1 and isinstance(gen.ifs[0].ops[0], ast.NotIn) \
+                    and norm(gen.ifs[0].left) == f"{fv}.name":
+                excl = gen.ifs[0].comparators[0]
+                if isinstance(excl, ast.Name):
+                    excl = module_constant(f.mod.tree, excl.id)
+                if isinstance(excl, (ast.Tuple, ast.List, ast.Set)) and all(isinstance(e, ast.Constant) for e in excl.elts):
+                    ok = sorted(e.value for e in excl.elts) == ["content_id", "id"]
+                else:
+                    raise Unsupported(f"__post_init__: excluded field names {norm(gen.ifs[0].comparators[0])[:50]} not resolved", g)
     if ok:
         ck.holds("R-GATE", f, callc[0], what)
     else:
-        ck.violation("R-GATE", f, g, what, construct=f"checked field map: {norm(callc[0].args[1])[:90] if callc and len(callc[0].args) == 2 else None}")
+        ck.violation("R-GATE", f, g, what, construct=f"checked field map: {norm(fmap)[:90] if fmap is not None else None}")
     # the per-field helper
     h = ck.repo.func(NODE, "_check_runtime_types")
-    loops = [s for s in h.node.body if isinstance(s, ast.For)]
+    hbody = lower_collect(strip_docstring(h.node.body))
+    loops = [s for s in hbody if isinstance(s, ast.For)]
+    if len(loops) != 1:
+        raise Unsupported("_check_runtime_types: not a single loop / comprehension over the field map", h.node)
     what = "_check_runtime_types reports exactly the fields whose value does not conform (is_instance(getattr(node, f.name), resolved type) is false)"
     ok = False
     if len(loops) == 1 and isinstance(loops[0].target, ast.Tuple) and len(loops[0].target.elts) == 2:
         nodep, mapp = h.node.args.args[0].arg, h.node.args.args[1].arg
         fv, ti = norm(loops[0].target.elts[0]), norm(loops[0].target.elts[1])
         if norm(loops[0].iter) == f"{mapp}.items()":
-            leaves = decision_tree(loops[0].body)
-            key_variants = {f"is_instance(val, {ti}.resolved_type)", f"is_instance(getattr({nodep}, {fv}.name), {ti}.resolved_type)"}
+            leaves = decision_tree(loops[0].body, resolve=True)
+            key_variants = {f"is_instance(getattr({nodep}, {fv}.name), {ti}.resolved_type)"}
             good = True
             acc = None
             for lf in leaves:
@@ -209,10 +245,7 @@ def r_gate(ck: Checker) -> None:
                         good = False
                     else:
                         acc = norm(apps[0].value.func.value)
-            vals = [st for st in loops[0].body if isinstance(st, ast.Assign) and norm(st.targets[0]) == "val"]
-            if any(norm(v.value) != f"getattr({nodep}, {fv}.name)" for v in vals):
-                good = False
-            rets = [s for s in h.node.body if isinstance(s, ast.Return)]
+            rets = [s for s in hbody if isinstance(s, ast.Return)]
             ok = good and acc is not None and len(rets) == 1 and rets[0].value is not None and norm(rets[0].value) == acc
     if ok:
         ck.holds("R-GATE", h, loops[0], what)
